@@ -19,6 +19,26 @@ func (s *Server) KillClientConns() int {
 	return n
 }
 
+// DropIdleSilently is the server (or the network in between) closing the client connections that are idle - not
+// inside a transaction - without the client noticing: wait_timeout, a restart, a fail-over.  The next use of such
+// a connection fails with mysql.ErrInvalidConn ("invalid connection"), which database/sql hands to the application;
+// only the driver's connection check in ResetSession sees it in time (driver.ErrBadConn -> another connection is
+// taken).  IsValid stays true until then.  It returns the number of connections dropped.
+func (s *Server) DropIdleSilently() int {
+	s.mu.Lock()
+	defer s.mu.Unlock()
+	n := 0
+	for _, c := range s.conns {
+		if c.closed || c.admin || c.tx != nil {
+			continue
+		}
+		c.killLocked()
+		c.silent = true
+		n++
+	}
+	return n
+}
+
 // XAStates returns the state ("active" | "idle" | "prepared") of every XA branch the server knows,
 // keyed by xid text, and for each whether it is still attached to a live connection.
 func (s *Server) XAStates() map[string]XAState {
